@@ -130,6 +130,11 @@ func dominates(a, b ssa.Instruction) bool {
 // from == nil) reaches an instruction satisfying isTarget without first executing one satisfying isCut.
 // It returns the target found (for diagnostics).
 func pathAvoiding(fn *ssa.Function, from ssa.Instruction, isTarget, isCut func(ssa.Instruction) bool) ssa.Instruction {
+	return pathAvoidingE(fn, from, isTarget, isCut, nil)
+}
+
+// pathAvoidingE additionally refuses to cross CFG edges for which cutEdge(pred, succ) holds.
+func pathAvoidingE(fn *ssa.Function, from ssa.Instruction, isTarget, isCut func(ssa.Instruction) bool, cutEdge func(pred, succ *ssa.BasicBlock) bool) ssa.Instruction {
 	type start struct {
 		b *ssa.BasicBlock
 		i int
@@ -163,6 +168,9 @@ func pathAvoiding(fn *ssa.Function, from ssa.Instruction, isTarget, isCut func(s
 			continue
 		}
 		for _, succ := range s.b.Succs {
+			if cutEdge != nil && cutEdge(s.b, succ) {
+				continue
+			}
 			if !visited[succ] {
 				visited[succ] = true
 				work = append(work, start{succ, 0})
